@@ -246,24 +246,22 @@ def cyAddConstraintFromModel (h : Heap) (d m : Nat) (copy : Bool) (remap : List 
   let h3 := setConstraints h2 d (constraintsOf h2 (cppOf h2 d) ++ [c.2])
   (store h3 (clabelsOf h3 d) (.labels (lab (labelsAt h3 (clabelsOf h3 d)))), c.2)
 
-/-- `CQM.add_constraint_from_model(qm, sense, rhs, label, copy=…)`: an object-dtype BQM is first converted
-    (`qm = BinaryQuadraticModel(qm)` — a temporary), then the Cython method gets `qm.data` and `bool(copy)` -/
-def addConstraintFromModel (h : Heap) (d m : Nat) (objectDtype copy : Bool) (remap : List Rat → List Rat) (m' : Merge) (lab : List Nat → List Nat) : Heap × Nat :=
-  if objectDtype then
-    let t := Call.run h m m (.construct m')
-    cyAddConstraintFromModel t.1 d t.2 copy remap m' lab
-  else cyAddConstraintFromModel h d m copy remap m' lab
+/-- `CQM.add_constraint_from_model(qm, sense, rhs, label, copy=…)`: the Cython method gets `qm.data` and `bool(copy)`.  (An object-dtype
+    BQM is first converted with `BinaryQuadraticModel(qm)`, which keeps the object dtype, and the fused-type dispatch of the Cython method
+    then raises `TypeError` before anything is written: such models cannot be added and are outside this function.) -/
+def addConstraintFromModel (h : Heap) (d m : Nat) (copy : Bool) (remap : List Rat → List Rat) (m' : Merge) (lab : List Nat → List Nat) : Heap × Nat :=
+  cyAddConstraintFromModel h d m copy remap m' lab
 
 /-- `add_constraint(data, *args, **kwargs)` with a model, `add_constraint_from_comparison(comp, label, copy, …)` with `comp.lhs`:
     `copy` is handed on by keyword -/
-def addConstraint (h : Heap) (d m : Nat) (objectDtype copy : Bool) (remap : List Rat → List Rat) (m' : Merge) (lab : List Nat → List Nat) : Heap × Nat :=
-  addConstraintFromModel h d m objectDtype copy remap m' lab
+def addConstraint (h : Heap) (d m : Nat) (copy : Bool) (remap : List Rat → List Rat) (m' : Merge) (lab : List Nat → List Nat) : Heap × Nat :=
+  addConstraintFromModel h d m copy remap m' lab
 
 /-- `add_discrete_from_model(qm, label, copy, check_overlaps)` as coded: the checks only read (`check_overlaps` selects whether the
     overlap test runs); `add_constraint_from_model(qm, '==', 1, label=label, copy=copy)`; `self.discrete.add(label)` marks the NEW
     constraint -/
 def addDiscreteFromModel (h : Heap) (d m : Nat) (copy _checkOverlaps : Bool) (remap mark : List Rat → List Rat) (m' : Merge) (lab : List Nat → List Nat) : Heap × Nat :=
-  let r := addConstraintFromModel h d m false copy remap m' lab
+  let r := addConstraintFromModel h d m copy remap m' lab
   (store r.1 r.2 (.coeffs (mark (coeffsAt r.1 r.2))), r.2)
 
 /-- `add_discrete_from_comparison(comp, label, copy, check_overlaps)` as coded:
@@ -276,7 +274,7 @@ def addDiscreteFromComparison (h : Heap) (d lhs : Nat) (copy checkOverlaps : Boo
 def addDiscreteFromIterable (h : Heap) (d : Nat) (_checkOverlaps : Bool) (fill : Post) (remap mark : List Rat → List Rat) (m' : Merge) (lab : List Nat → List Nat) : Heap × Nat :=
   let t := cyNew h
   let h1 := mutate t.1 t.2 fill.f fill.g
-  let r := addConstraint h1 d t.2 false false remap m' lab
+  let r := addConstraint h1 d t.2 false remap m' lab
   (store r.1 r.2 (.coeffs (mark (coeffsAt r.1 r.2))), r.2)
 
 /-- `set_objective(model)` as coded: an object-dtype BQM is converted first; `_set_objective_from_cyqm(objective.data)` adds the
